@@ -513,6 +513,8 @@ def main():
                 if kind == 'irregular':
                     c.update(il_step=abs(c.get('il_step', 1)) or 1, xl_step=abs(c.get('xl_step', 1)) or 1,
                              n_il=max(c.get('n_il', 3), 3), n_xl=max(c.get('n_xl', 3), 3), mseed=5 + j, il0=3, xl0=4)
+                    if c['bs'] is not None and (len(c['bs']) != 3 or c['bs'][0] == 1):
+                        c['bpv'], c['bs'] = 4, None          # the drawn case was a 2D one: not a 3D blockshape
                 if kind == 'regular':
                     c.update(n_il=c.get('n_il', 4), n_xl=c.get('n_xl', 5), il0=c.get('il0', 1), xl0=c.get('xl0', 1),
                              il_step=c.get('il_step', 1), xl_step=c.get('xl_step', 1))
